@@ -5,6 +5,7 @@ import WfProofs.LifecycleRow
 import WfProofs.LifecycleReplay
 import WfProofs.LifecycleIdle
 import WfProofs.DbosTimer
+import WfProofs.LifecycleCalm
 import WfModel.GenDbosTimer
 /-!
 # C36 — idle runs are released after the idle timeout and reloaded on demand
@@ -470,6 +471,86 @@ example : ∀ a ∈ [BAct.create, .uSpawn 0, .uTry 0, .rSpawn 0, .rBegin 0, .uSe
   subst h
   simp at ha
 
+/-! ## DBOS stack: "the row says `released`" and "the run is out of memory" -/
+
+/-- the clause a resumer relies on (`_do_resume` first awaits the old workflow's result), at full strength on machine (B):
+along every crash-free schedule, whenever the lifecycle row says `released` no workflow of the run is executing -/
+def C36_dbos_released_means_unloaded_statement : Prop :=
+  ∀ (acts : List BAct), (∀ a ∈ acts, ∀ i, a ≠ .rCrash i) →
+    ∀ u, (brun {} acts).db = some ⟨.released, u⟩ → (brun {} acts).wfUp = false
+
+/-- (a) a release that begins while a resume is under way (the resumer has set the row to `active`, the new workflow is not
+started yet; the releaser's TickIdleRelease goes to the exited workflow, whose result is available at once).  Machine (B)
+lets a release begin at any time; on one replica it cannot happen: the timer that would begin it was armed by the workflow
+that has exited, and the TickIdleRelease that made it exit was a received tick, which cancels the registered timer
+(`C36_dbos_no_timer_outlives_its_workflow`; tried on the real decorator over the stand-in engine: the re-armed timer of a
+run that consumed a tick inside its release window is cancelled when TickIdleRelease arrives) -/
+def C36.lateReleaseActs : List BAct :=
+  [.create, .rSpawn 0, .rBegin 0, .rSend 0, .wfStep, .rComplete 0, .uSpawn 1, .uTry 1,
+   .rSpawn 2, .rBegin 2, .rSend 2, .rComplete 2, .uFinish 1]
+
+/-- (b) a live but slow releaser: its release is taken over after the crash timeout, the run is resumed, idles, a second
+release begins — and the first releaser's late `complete_release` (guarded by `state = 'releasing'` only, not by who holds
+it) closes the *second* release before that one has even sent its TickIdleRelease -/
+def C36.supersededCompleteActs : List BAct :=
+  [.create, .rSpawn 0, .rBegin 0, .rSend 0, .wfStep, .uSpawn 1, .tick 120001, .uTry 1, .uFinish 1, .wfStep,
+   .rSpawn 2, .rBegin 2, .rComplete 0]
+
+/-- **refuted on the protocol model** (model witnesses only — DBOS is not available; at the level of the real
+`SqliteRunLifecycleLock` both are ordinary CAS sequences, replayed on it on every run): in both schedules the row
+ends up `released` while a workflow of the run is executing; no releaser crashed.  A sender that now finds `released`
+owns a resume whose first step waits for a workflow that is alive.  (a) needs a release attempt without a live, idle
+workflow behind it (another replica's stale timer); (b) needs a releaser that is alive but slower than the crash timeout
+(the negation of `promptAt`, C26_crash_timeout) — `complete_release` is guarded by the row's state, not by its holder. -/
+theorem C36_dbos_released_means_unloaded_refuted :
+    ¬ C36_dbos_released_means_unloaded_statement ∧
+    (let s := brun {} C36.lateReleaseActs
+     s.db = some ⟨.released, 0⟩ ∧ s.wfUp = true ∧ s.wfInc = 1 ∧ s.takeovers = [] ∧ s.rel 2 = .done ∧ s.stranded = []) ∧
+    (let s := brun {} C36.supersededCompleteActs
+     s.db = some ⟨.released, 120001⟩ ∧ s.wfUp = true ∧ s.rel 2 = .won 120001 ∧ s.rel 0 = .done ∧ s.takeovers.length = 1) ∧
+    balongB calmAt {} C36.lateReleaseActs = false ∧ balongB calmAt {} C36.supersededCompleteActs = false := by
+  refine ⟨?_, by decide, by decide, by decide, by decide⟩
+  intro h
+  have := h C36.lateReleaseActs (by intro a ha i e; subst e; simp [C36.lateReleaseActs] at ha) 0 (by decide)
+  revert this; decide
+
+/-- **partial** (guard `calmAt` along the schedule: a release begins only while the workflow is up, and no resumer takes
+a `releasing` row over): for every such schedule — any number of releasers and senders, releaser crashes anywhere —
+(1) a `released` row means the workflow is gone, nobody is between a CAS win and its `complete_release`, and nobody owns a
+resume; (2) from **every** such reachable state the next event reloads the run at once and exactly once: the sender's
+`try_begin_resume` wins (`released → active`), its `_do_resume` does not have to wait, a new incarnation starts with the
+event folded in and reduces it.  (`C36_dbos_release_resume_partial` is the same cycle from one given state.) -/
+theorem C36_dbos_released_means_unloaded_partial (acts : List BAct) (hg : balongB calmAt {} acts = true) :
+    let s := brun {} acts
+    (∀ u, s.db = some ⟨.released, u⟩ →
+        s.wfUp = false ∧ (∀ i, s.rel i ≠ .won u ∧ ∀ t inc, s.rel i ≠ .sentRelease t inc) ∧ ∀ k, s.res k ≠ .owner) ∧
+    (∀ u k, s.db = some ⟨.released, u⟩ → s.res k = .absent →
+        let s' := brun s [.uSpawn k, .uTry k, .uFinish k, .wfStep]
+        s'.wfUp = true ∧ s'.wfInc = s.wfInc + 1 ∧ s'.processed = s.processed ++ [k] ∧ s'.db = some ⟨.active, s.now⟩ ∧
+          s'.res k = .done ∧ s'.inbox = [] ∧ s'.wins = .resume k false :: s.wins) := by
+  intro s
+  have hc : Calm s := Calm.run acts {} Calm.init hg
+  refine ⟨?_, ?_⟩
+  · intro u hu
+    refine ⟨hc.p u hu, ?_, ?_⟩
+    · intro i
+      have hn := hc.noFlight s (by intro u' hu'; rw [hu] at hu'; cases hu') i
+      refine ⟨?_, ?_⟩
+      · intro e; rw [e] at hn; cases hn
+      · intro t inc e; rw [e] at hn; cases hn
+    · exact hc.noOwner s (by intro u' hu'; rw [hu] at hu'; cases hu')
+  · intro u k hu hk
+    have hdown := hc.p u hu
+    simp [brun, bstepD, bstep, hu, hk, hdown, upd_apply, dbTryBeginResume]
+
+/-- non-vacuity: a calm schedule with a tick consumed during the release window, two releasers, a second cycle; the
+final state is `released` -/
+example :
+    let acts := [BAct.create, .uSpawn 0, .uTry 0, .rSpawn 0, .rSpawn 1, .rBegin 0, .rBegin 1, .uSend 0, .wfStep, .rSend 0, .wfStep,
+      .rComplete 0, .uSpawn 1, .uTry 1, .uFinish 1, .wfStep, .rSpawn 2, .rBegin 2, .rSend 2, .wfStep, .tick 5, .rComplete 2]
+    balongB calmAt {} acts = true ∧ (brun {} acts).db = some ⟨.released, 5⟩ ∧ (brun {} acts).res 7 = .absent ∧
+      (brun {} acts).processed = [0, 1] := by decide
+
 /-! ## DBOS stack: *when* a release is attempted (M7 (C), `WfModel/DbosTimer.lean`)
 
 The DBOS decorator has no `idle_since` / `elapsed` test: that a release is attempted only after `idle_timeout` of
@@ -585,6 +666,34 @@ theorem C36_dbos_timer_cover (tau : Nat) (acts : List DbosTimer.Act) :
     have hle : a + tau ≤ s.now + (a + tau - s.now) := by omega
     have hs0 := hinv.stray0
     simp [DbosTimer.run, DbosTimer.stepD, DbosTimer.step, hj, hle, hl, ht, hr, hs0, DbosTimer.upd_apply]
+
+/-- **no timer outlives its workflow** (what machine (B)'s guard "a release begins only while the workflow is up" rests on,
+on one replica): in every reachable state, once a tick has reached the run — any tick, in particular the TickIdleRelease on
+which the workflow exits — or a resume has started, no timer task sleeps and nothing is registered; a release can then be
+attempted again only after a *new* idle announcement, i.e. by a workflow that is up. -/
+theorem C36_dbos_no_timer_outlives_its_workflow (tau : Nat) (acts : List DbosTimer.Act) (a : DbosTimer.Act)
+    (ha : a = .tick ∨ a = .resume) :
+    let s := DbosTimer.stepD (DbosTimer.run (DbosTimer.init tau) acts) a
+    (∀ j x d, s.tasks j ≠ .sleeping x d) ∧ s.reg = none ∧ s.pending = false := by
+  intro s
+  have hinv : DbosTimer.Inv s := by
+    have h0 := DbosTimer.Inv.run acts _ (DbosTimer.Inv.init tau)
+    exact h0.stepD _ a
+  have hp : s.pending = false := by
+    rcases ha with rfl | rfl <;> rfl
+  have hr : s.reg = none := by
+    have h0 := DbosTimer.Inv.run acts _ (DbosTimer.Inv.init tau)
+    rcases ha with rfl | rfl <;> exact (DbosTimer.cancelReg_spec _ h0).1
+  refine ⟨?_, hr, hp⟩
+  intro j x d hj
+  have := (hinv.sl j x d hj).1
+  rw [hr] at this; cases this
+
+/-- non-vacuity: the run consumes a tick inside its release window (timer 0 is past its pop), idles again (timer 1), then
+TickIdleRelease arrives: timer 1 is cancelled -/
+example :
+    let s := DbosTimer.run (DbosTimer.init 200) [.idle, .advance 200, .fire 0, .advance 55, .tick, .idle, .advance 95, .tick]
+    s.tasks 0 = .releasing 0 ∧ s.tasks 1 = .cancelled ∧ s.reg = none ∧ s.attempts.length = 1 := by decide
 
 /-- non-vacuity (`pending` holds right after an announcement, also a repeated one) -/
 example : (DbosTimer.run (DbosTimer.init 200) [.idle, .advance 50, .tick, .advance 70, .idle]).pending = true := by decide
